@@ -14,6 +14,48 @@ def obligations(ctx):
     out += pick(allocspec.plan_output_ids(ctx), [("B-5", "fresh-output-id")])
     out += pick(handovercrash.crash_consistency(ctx), [("B-6", "handover-crash")])
     out += cursor_inputs(ctx)
+    out += merge_keeps_rows(ctx)
+    return out
+
+
+def merge_keeps_rows(ctx):
+    """the k-way merge moves rows from the input cursors to the output zones: a row taken from a cursor is never dropped"""
+    import re
+    import z3
+    from .. import oblig, sym
+    from .flushspec import Builder
+    b = Builder(ctx, "zone-zone_merger-{impl#0}-next_zone.", "ZoneMerger::next_zone", {})
+    E, q = b.E, ctx.q
+    r = b.mk("B-8", "ZoneMerger::next_zone: every row a cursor hands out (ZoneCursor::next_row = Some(row)) is pushed onto the "
+                    "output batch before the function returns or takes the next row - compaction writes each input row exactly "
+                    "once, whatever its context / event id looks like (no de-duplication, no filter)")
+    out = [b.results["B-8"]]
+    if not r:
+        return out
+    rows = oblig.events(E, r"ZoneCursor(::<.*>)?::next_row$")
+    pushes = [e for e in oblig.events(E, r"Vec::<.*>::push$|Vec::push$") if len(e.args) > 1]
+    if not oblig.need_anchor(r, rows, "ZoneCursor::next_row") or not oblig.need_anchor(r, pushes, "batch.push"):
+        return out
+    r.nontrivial = True
+    r.bounds = f"merge loop unrolled {ctx.k}x (rows 1..{ctx.k + 1} of a call); heap and cursors opaque"
+    for e in rows:
+        mine = [p for p in pushes if re.search(re.escape(e.dest_label) + r":Some\.0$", sym.describe(p.args[1]))]
+        pushed = z3.Or([p.reach for p in mine]) if mine else z3.BoolVal(False)
+        d = z3.BitVec(f"disc({e.site})", 64)
+        for (_n, reach, _env) in E.returns:
+            res, model = q.check(reach, e.reach, d == 1, z3.Not(pushed), domain=E.domain)
+            r.queries += 1
+            if res == z3.sat:
+                r.status = "violated"
+                r.witness = {"what": f"a row taken from an input cursor (iteration {e.layer + 1}) is not written to the output zone on some path: "
+                                     "the hand-over retires the inputs, so the event is gone after compaction",
+                             "span": f"{e.span[0]}:{e.span[1]}" if e.span else None, "call": "ZoneCursor::next_row",
+                             "path": E.path_of_model(model)[-10:], "model": oblig.model_summary(E, model)}
+                return out
+            if res != z3.unsat:
+                r.status = "inconclusive"
+                r.notes.append("solver returned unknown")
+                return out
     return out
 
 
